@@ -22,6 +22,7 @@ import (
 	"google.golang.org/protobuf/types/known/wrapperspb"
 
 	"github.com/openfga/openfga/internal/verifh/core"
+	"github.com/openfga/openfga/internal/verifh/e1"
 	"github.com/openfga/openfga/internal/verifh/sqlx"
 	"github.com/openfga/openfga/pkg/encoder"
 	"github.com/openfga/openfga/pkg/logger"
@@ -861,13 +862,16 @@ func Run(o *core.Options) int {
 		"end signal as documented in the API descriptions: Read/ListStores/ReadAuthorizationModels 'The continuation token will be empty if there are no more ...'; ReadChanges 'If there are no changes after the provided continuation token, the same token will be returned', 'If the store never had any tuples added or removed, this token will be empty'",
 		"order: changes in commit order (items of one Write call in any order), models newest first (reverse creation order), stores ascending by id; Read: no documented order => multiset",
 		"a forged token must give an error or a tail of the data; for memory offset tokens the value k denotes position clamp(k,0,len) (as ListStores/ReadAuthorizationModels do), a non-numeric value must be rejected; for SQLite ListStores/ReadAuthorizationModels the value is an id bound",
-		"sequential histories only: all writes of the process are serialised (ULID generation is monotonic inside one millisecond only without interleaving callers); concurrent writers are out of scope here",
+		"sequential histories only in the part above: all writes of the process are serialised (ULID generation is monotonic inside one millisecond only without interleaving callers); concurrent writers are decided by the instrumented sub-harness memw on the memory backend (coverage.concurrent_writers)",
 		"tuples are written through the storage interface (no model needed), models and stores through the API; reads start 5 ms after the last write because the SQL changelog horizon compares at millisecond granularity",
 		"token serializers wired as cmd/run does: string serializer for memory, SQL JSON serializer for SQLite",
 	)
 	c := &checker{r: r, thorough: o.Thorough()}
 
 	if o.Replay != "" {
+		if isSub, code := e1.ReplaySub(o, "memw"); isSub {
+			return code // a schedule recorded by the concurrent-writers sub-harness
+		}
 		var cs Case
 		if err := core.LoadReplay(o.Replay, &cs); err != nil {
 			fmt.Fprintln(os.Stderr, err)
@@ -927,5 +931,8 @@ func Run(o *core.Options) int {
 	want, _ = w.expected(q)
 	r.Sample(map[string]any{"backend": "sqlite", "n": 5, "query": q, "page_size": 2, "pages": wk.pages, "tokens": wk.tokens, "concatenation": wk.items, "expected": want})
 	w.closeFn()
+	e1.MergeSub(o, r, "memw", "C14", "concurrent_writers", memwWhat)
 	return r.Finish()
 }
+
+const memwWhat = "memory datastore with pkg/storage/memory instrumented (sync -> scheduler-visible locks) and a harness-owned clock (timestamppb.Now and time.Now return strictly increasing instants 1 ms apart, every read a scheduling point, so changelog ULIDs of different Write calls compare by the instant read): 2-3 writer threads of 1-2 Write calls (writes, deletes, mixed, conflicting on one tuple, two stores), optionally a reader thread walking ReadChanges with page size 1 while they run; every interleaving up to the preemption bound. After the threads finished the main thread walks ReadChanges with page sizes 1, 2, 50 from the start and resumes from every token issued. Oracle per schedule: each walk returns exactly one entry per item of a successful Write (none twice, none missing) and the same sequence for every page size; a resumed walk returns exactly the rest; entries of one call are contiguous, deletes before writes; calls ordered in real time (A returned before B was invoked) are ordered in the changelog; the concurrent reader never repeats an entry, returns a prefix of the final order and misses nothing committed before its last call; no deadlock or panic. No state-key pruning (the process-global ULID entropy source is not a scheduler object)"
